@@ -7,17 +7,18 @@ ID = 'C18'
 TARGETS = ['MindsVerif.Props.C18']
 THEOREMS = ['MindsVerif.Props.C18.' + n for n in (
     'C18_copy_generic', 'C18_copy_partial', 'C18_copy_fixed', 'C18_copy_live',
-    'C18_iso_sound', 'C18_witness_1', 'C18_witness_1a', 'C18_witness_1b', 'phi18', 'phi18_paren', 'phi18_ident_attrs',
+    'C18_copy_iso', 'C18_copy_iso_generic', 'C18_copy_iso_live', 'C18_witness_6', 'phi18_ident_shape', 'C18_iso_sound', 'C18_witness_1', 'C18_witness_1a', 'C18_witness_1b', 'phi18', 'phi18_paren', 'phi18_ident_attrs',
     'pin_custom_copy', 'pin_eq_defs', 'pin_plan_variant',
     'C18_ast_eq', 'C18_step_eq_refl', 'C18_step_eq_symm_partial', 'C18_witness_4', 'C18_witness_2',
-    'C18_plan_eq_fixed', 'C18_witness_3', 'C18_result_eq', 'C18_col_eq', 'C18_witness_5')]
+    'C18_plan_eq_fixed', 'C18_witness_3', 'C18_result_eq', 'C18_col_eq', 'C18_witness_5', 'C18_witness_7', 'C18_single_line_refines', 'pin_single_line')]
 ASSUME = [
     'Python object model as in Model/Heap.lean: an object is its vars() in order, lists/dicts are cells, '
     'str/int/float/bool/None/type are atoms; copy.deepcopy of CPython 3.12 Lib/copy.py and Identifier.__deepcopy__ are '
     'hand-transcribed (tie: copy correspondence stream of this run, real parser trees + synthetic graphs with sharing and cycles)',
     'which Identifier hook / QueryPlan.__eq__ / Result.__hash__ variant the tree has is decided by behaviour probing (tools/extract/x_copy.py)',
-    'T18.1 proves separation and the frame property for all heaps; that the copy is a structural copy is not proved for all heaps: '
-    'Heap.isoCheck (proved sound: C18_iso_sound) is evaluated on the model copy of every tree of the run, and equal / same print is probed on the real objects',
+    'T18.1 (separation, frame, and C18_copy_iso: equal unfoldings of original and copy) is proved for all heaps of the model; '
+    'that str / to_tree of the real classes are functions of the unfolding (no id(), no global state) is assumed and probed '
+    '(copy == orig, same str, same to_tree on the real objects); hypothesis identShapeB is checked on every tree of the run',
     'the __eq__ methods are transcribed literally; == on attribute values is abstract (veq); str / to_tree are abstract deterministic functions',
 ]
 
@@ -37,7 +38,9 @@ EXTRA_SQL = [
     ('mindsdb', "update t set a = 1, b = 'x' where c = 2"), ('mindsdb', "insert into t (a, b) values (1, 2), (3, 4)"),
     ('mindsdb', "create table t (a int, b text)"), ('mindsdb', "select 1 union select 2"),
     ('mindsdb', "with c as (select 1) select * from c"),
+    # regression examples of KF-C18-4 (fixed in d4ecde6 / 8f322bc): whitespace inside a quoted alias that to_tree omits
     ('mysql', "select * as `a b` from t"), ('mindsdb', "select * from int (select 1) as `a b`"),
+    ('mysql', "select * from (commit) as `a b`"),
     ('mindsdb', "select MYDB.fn(a), sum(x) over (partition by y order by z rows between 1 preceding and current row) from t"),
     ('mindsdb', "select * from int.tab1 t join mindsdb.pred m using a = 1"),
     ('mindsdb', "select * from int.tab1 t join mindsdb.pred m"),
@@ -221,12 +224,17 @@ def set_site(root, site, value):
 
 
 def layout_norm(x):
-    """collapse whitespace runs outside quotes ('…', "…", `…`) to one space; text inside quotes is kept"""
-    out, q, sp = [], None, False
+    """collapse whitespace runs outside quotes ('…', "…", `…`) to one space; text inside quotes is kept
+    (backslash escapes the next character inside '…' and "…")"""
+    out, q, esc, sp = [], None, False, False
     for ch in x:
         if q:
             out.append(ch)
-            if ch == q:
+            if esc:
+                esc = False
+            elif ch == '\\' and q != '`':
+                esc = True
+            elif ch == q:
                 q = None
             continue
         if ch.isspace():
@@ -344,20 +352,28 @@ def call_eq(a, b):
     return {True: 'true', False: 'false', None: 'none'}.get(r, 'other') if isinstance(r, (bool, type(None))) else 'other'
 
 
-def probe_plan(sql, meta):
+def catalog_of(name):
+    """plan_query kwargs: None -> the fixed catalog of this module, else a catalog of tools/harness/plangen.py"""
+    if not name:
+        return copy.deepcopy(CATALOG)
+    from tools.harness import plangen
+    return copy.deepcopy(plangen.probe_catalogs()[name])
+
+
+def probe_plan(sql, meta, cat=None):
     """equality oracles on the plan of one query (planned twice from two parses)"""
     from mindsdb_sql import parse_sql
     from mindsdb_sql.planner import plan_query
     fails = []
 
     def fail(cls, desc, **kw):
-        d = dict(probe='plan', desc=desc, sql=sql, **meta)
+        d = dict(probe='plan', desc=desc, sql=sql, cat=cat, **meta)
         d.update(kw)
         d['class'] = cls
         fails.append(d)
     try:
-        p1 = plan_query(parse_sql(sql, 'mindsdb'), **copy.deepcopy(CATALOG))
-        p2 = plan_query(parse_sql(sql, 'mindsdb'), **copy.deepcopy(CATALOG))
+        p1 = plan_query(parse_sql(sql, 'mindsdb'), **catalog_of(cat))
+        p2 = plan_query(parse_sql(sql, 'mindsdb'), **catalog_of(cat))
     except Exception:
         return None, None, fails
     steps_equal = len(p1.steps) == len(p2.steps)
@@ -431,7 +447,7 @@ def reproduce_kf(k, rng):
     elif w.get('probe') == 'tree':
         fs = probe_tree(parse_sql(w['sql'], w['dialect']), rng, dict(dialect=w['dialect'], sql=w['sql']))
     elif w.get('probe') == 'plan':
-        fs = probe_plan(w['sql'], {})[2]
+        fs = probe_plan(w['sql'], {}, w.get('cat'))[2]
     else:
         fs = probe_result(w['n'])
     return any(kf_match(k, f) for f in fs)
@@ -548,6 +564,10 @@ def run(chk):
     sd = side()
     hook = sd['hook']
     rng = common.rng_for(chk.seed, 'C18/main')
+    byid = {}
+    for k in chk.kf:            # a proposed entry replaces the committed one with the same id
+        byid[k['id']] = k
+    chk.kf[:] = list(byid.values())
     # known findings: do the witnesses still fail?
     for k in chk.kf:
         if k['status'] == 'open':
@@ -569,6 +589,7 @@ def run(chk):
     # ---- trees: probe + copy correspondence
     trees = []
     n_trees = n_muts = n_near = 0
+    bad_shape = []
     for meta, t in tree_stream(chk, quick, deep):
         n_trees += 1
         chk.count(('tree', meta['dialect'], meta['sql']))
@@ -582,6 +603,11 @@ def run(chk):
             bump('tree/unserialisable')
         except Exception:
             bump('tree/copy-raises')     # reported by probe_tree below
+        try:      # hypothesis of C18_copy_iso for the hooks: Identifier objects carry exactly the attributes the hook copies
+            bad_shape += [dict(meta, attrs=list(vars(x))) for x in H.walk(t) if type(x).__name__ == 'Identifier'
+                          and list(vars(x)) not in (['alias', 'parentheses', 'parts'], ['alias', 'parentheses', 'parts', 'sub_select'])][:1]
+        except H.Opaque:
+            pass
         m = dict(meta)
         fs = probe_tree(t, rng, m, max_mut=60 if quick else 400)
         n_muts += m.get('_mutations', 0)
@@ -594,6 +620,7 @@ def run(chk):
             bump('nearmiss/fail')
         if len(trees) < 400:
             trees.append((meta, t))
+    chk.oblige('hyp:identShape-on-every-tree', 'hypothesis', not bad_shape, json.dumps(bad_shape[:2], default=str)[:600])
     chk.evaluations += n_muts + n_near
     dist['mutations_applied'] = n_muts
     dist['near_miss_pairs'] = n_near
@@ -646,7 +673,24 @@ def run(chk):
         chk.count(('plan', s))
         bump('plan/%s' % ('fail' if fs else 'ok'))
         add_failures(fs)
-        plans.append((s, p1, p2))
+        plans.append(((s, None), p1, p2))
+    # typed planner generator (tools/harness/plangen.py): statements x catalogs
+    from tools.harness import plangen
+    grng = common.rng_for(chk.seed, 'C18/plangen')
+    gen_cases = list(plangen.FIXED) + list(plangen.probe_stream(grng, 600 if quick and not deep else 8000))
+    seen_g = set()
+    for sql_g, cat_g in gen_cases:
+        if (sql_g, cat_g) in seen_g:
+            continue
+        seen_g.add((sql_g, cat_g))
+        p1, p2, fs = probe_plan(sql_g, dict(src='plangen'), cat_g)
+        if p1 is None:
+            bump('plangen/rejected')
+            continue
+        chk.count(('plan', cat_g, sql_g))
+        bump('plangen/%s' % ('fail' if fs else 'ok'))
+        add_failures(fs)
+        plans.append(((sql_g, cat_g), p1, p2))
     prng = common.rng_for(chk.seed, 'C18/plans')
     fixed = '1' if sd['plan'] == 'true' else '0'
     for idx, (s, p1, p2) in enumerate(plans):
@@ -695,7 +739,7 @@ def run(chk):
                 if ab != ba or 'raises' in (ab, ba) or ab not in ('true', 'false'):
                     ka = sorted(k for k in vars(a) if k != 'result_data')
                     kb = sorted(k for k in vars(b) if k != 'result_data')
-                    add_failures([dict(probe='steppair', sql=sa, sql_b=sb, step=tn, ab=ab, ba=ba, keys_a=ka, keys_b=kb,
+                    add_failures([dict(probe='steppair', sql=sa[0], cat=sa[1], sql_b=sb[0], cat_b=sb[1], step=tn, ab=ab, ba=ba, keys_a=ka, keys_b=kb,
                                        desc='%s steps of the plans of two queries: a == b is %s but b == a is %s (attributes %s vs %s)' % (tn, ab, ba, ka, kb),
                                        **{'class': 'step-eq-asymmetric/%s/%s-%s' % (tn, ab, ba)})])
     dist['step_classes'] = {k: len(v) for k, v in by_type.items()}
@@ -714,6 +758,15 @@ def run(chk):
                 got = type(e).__name__
             lines.append('hash %d' % n)
             expect.append(('hash', dict(n=n), got))
+    # ---- to_single_line: model (variant probed by the extractor) vs the real function
+    sl_texts = [str(t) for m_, t in trees[:150]]
+    sl_alpha = [' ', ' ', '\n', '\t', 'a', 'b', "'", '"', '`', '\\', 'x', '.', '(']
+    for _ in range(600 if quick and not deep else 20000):
+        sl_texts.append(''.join(prng.choice(sl_alpha) for _ in range(prng.randint(0, 16))))
+    for x in sl_texts:
+        if all(ord(ch) < 128 and (ch >= ' ' or ch in '\n\t') for ch in x):
+            lines.append('sline %s %s' % (sd.get('sl_variant', 'pinned'), ','.join(str(ord(ch)) for ch in x)))
+            expect.append(('sline', dict(text=x[:200]), ','.join(str(ord(ch)) for ch in single_line(x))))
     from mindsdb_sql.parser.ast.create import TableColumn
     vals = ['a', 'b', 'int', None, True, False, 3]
     it_c = {}
@@ -762,7 +815,7 @@ def replay(path):
     if f.get('probe') == 'tree':
         fs = probe_tree(parse_sql(f['sql'], f['dialect']), rng, dict(dialect=f['dialect'], sql=f['sql']), max_mut=None)
     elif f.get('probe') == 'plan':
-        fs = probe_plan(f['sql'], {})[2]
+        fs = probe_plan(f['sql'], {}, f.get('cat'))[2]
     elif f.get('probe') == 'result':
         fs = probe_result(f['n'])
     elif f.get('probe') == 'nearmiss':
@@ -774,8 +827,8 @@ def replay(path):
     elif f.get('probe') == 'steppair':
         from mindsdb_sql.planner import plan_query
         fs = []
-        pa = plan_query(parse_sql(f['sql'], 'mindsdb'), **copy.deepcopy(CATALOG))
-        pb = plan_query(parse_sql(f['sql_b'], 'mindsdb'), **copy.deepcopy(CATALOG))
+        pa = plan_query(parse_sql(f['sql'], 'mindsdb'), **catalog_of(f.get('cat')))
+        pb = plan_query(parse_sql(f['sql_b'], 'mindsdb'), **catalog_of(f.get('cat_b')))
         for a in pa.steps:
             for b in pb.steps:
                 if type(a).__name__ == f['step'] == type(b).__name__:
